@@ -6,11 +6,12 @@ from pgverif import models as M
 from pgverif.gen import desc as D
 from pgverif.gen import history as H
 from pgverif.gen import ops as O
+from pgverif.monitors import derived as DV
 from pgverif.monitors import schema as SM
 from pgverif.monitors import tree as TM
 
 TIERS = {
-    'quick': dict(shards=4, cases=250, steps=15),
+    'quick': dict(shards=8, cases=125, steps=15),
     'thorough': dict(shards=16, cases=1500, steps=30),
 }
 RULE = ('case = one symbolic value (typed/untyped x sealed x partial x accessor flag x '
@@ -21,12 +22,32 @@ RULE = ('case = one symbolic value (typed/untyped x sealed x partial x accessor 
         'disjointness, original unchanged), then a mutation history on one side with '
         'the JSON of the other side compared after every step. Non-trivial = the value '
         'has at least 3 symbolic nodes and at least 3 post-clone steps changed the '
-        'mutated side; distinct by (shape, flags, clone kind, operation sequence).')
+        'mutated side; distinct by (shape, flags, clone kind, operation sequence). '
+        'In most cases the derived-state getters (is_partial, sym_missing, sym_nondefault, '
+        'non_default_values, sym_puresymbolic, ...) are called on the source BEFORE it is '
+        'cloned (all nodes or a random subset), so that whatever the source memoises '
+        'exists at clone time; the objects the clone\'s getters hand out must not be nodes '
+        '(deep: nor leaves) of the original; the observation of the untouched side is its '
+        'JSON, its format() and the getters of every node (compared with the snapshot after '
+        'every step and with a fresh computation at the end); deep and shallow clones both '
+        'get a history. Values with public state outside the symbolic fields: a DNA gets '
+        'metadata/userdata (cloneable or not) before cloning and a history of '
+        'set_metadata/set_userdata on one copy, a functor a history of rebind/setattr/del '
+        'of its arguments; observed on the other copy: JSON, metadata, userdata, what ITS '
+        'next clone carries; argument sets, is_fully_bound and the call result.')
 REQUIRED_COUNTERS = ['clones_checked', 'flag_nodes_compared', 'interference_checks',
-                     'identity_nodes_compared']
+                     'identity_nodes_compared', 'primed_clones', 'getter_identity_checks',
+                     'derived_interference_checks', 'state_interference_checks']
 ASSUMPTIONS = [
     'values held through pg.Ref are deliberately shared and excluded from the disjointness rule',
-    'to_json_str of the untouched side is the observation for non-interference',
+    'the observation of the untouched side for non-interference: to_json_str, format(), the '
+    'derived-state getters of every node and, for DNA / functors, the public state outside '
+    'the symbolic fields (metadata, userdata, what the next clone carries; argument sets, '
+    'call result)',
+    'documented DNA behaviour: only metadata / userdata set with cloneable=True is carried '
+    'by a clone; equality of a DNA clone is therefore judged on value and children when the '
+    'source holds non-cloneable metadata. A key is never set with cloneable=False on a copy '
+    'on which it is cloneable (left open by the documentation)',
 ]
 
 DEEP_VIAS = [('clone', lambda v: v.clone(deep=True)),
@@ -206,12 +227,277 @@ def cases(ctx):
   return ctx.params['cases']
 
 
+# ---------------------------------------------------------------------------
+# Derived state: priming of the source, identity of what the clone's getters
+# hand out, snapshot of the untouched side.
+
+def prime(ctx, rng, a):
+  """Calls the derived-state getters on the source before it is cloned."""
+  r = rng.random()
+  if r < 0.3:
+    return ''
+  srng = None
+  if r >= 0.65:
+    srng = rng
+    rng.sparse_mode = rng.choice(['half', 'one-fact@root', 'one-fact@some'])
+    rng.sparse_fact = rng.choice(list(DV.FACTS))
+  ctx.label = 'derived-getters'
+  DV.touch([a], None, srng)
+  ctx.label = None
+  return 'primed' if srng is None else f'primed[{rng.sparse_mode}]'
+
+
+def frz(v, depth=0):
+  """Hashable, identity-free rendering of what a getter returned."""
+  if isinstance(v, pg.Symbolic):
+    return ('sym', type(v).__name__, js(v), safe_format(v))
+  if isinstance(v, dict):
+    return ('dict', tuple(sorted(((repr(k), frz(x, depth + 1)) for k, x in v.items()))))
+  if isinstance(v, (list, tuple, set, frozenset)):
+    items = [frz(x, depth + 1) for x in v]
+    return (type(v).__name__, tuple(sorted(items, key=repr) if isinstance(v, (set, frozenset))
+                                    else items))
+  return (type(v).__name__, repr(v))
+
+
+def safe_format(v):
+  try:
+    return v.format(compact=True) if isinstance(v, pg.Symbolic) else repr(v)
+  except Exception as e:  # pylint: disable=broad-except
+    return f'<unformattable {type(e).__name__}>'
+
+
+def facts_of(x):
+  """{(keys, getter name): frozen result} for every node of x."""
+  out = {}
+  for n, keys in TM.nodes_of(x):
+    if isinstance(n, pg.Ref):
+      continue
+    for name, res in DV.read(n).items():
+      out[(tuple(keys), name)] = res if res[0] == 'raise' else ('ok', frz(res[1]))
+  return out
+
+
+HANDOUT_GETTERS = [
+    ('sym_nondefault', lambda n: n.sym_nondefault(flatten=False)),
+    ('sym_nondefault', lambda n: n.sym_nondefault()),
+    ('sym_nondefault', lambda n: n.non_default_values(flatten=False)),
+    ('sym_missing', lambda n: n.sym_missing(flatten=False)),
+    ('sym_missing', lambda n: n.sym_missing()),
+]
+
+
+def handed_out(v, out, depth=0):
+  """Symbolic nodes and leaf objects reachable in a getter's result (symbolic
+  nodes are not entered: what is below an own node is checked by tree_ok)."""
+  if isinstance(v, (pg.Symbolic, M.Leaf)):
+    out.append(v)
+  elif isinstance(v, dict) and depth < 40:
+    for x in v.values():
+      handed_out(x, out, depth + 1)
+  elif isinstance(v, (list, tuple)) and depth < 40:
+    for x in v:
+      handed_out(x, out, depth + 1)
+
+
+def getter_identity(ctx, a, b, deep, via, label, witness):
+  """No object returned by a getter of the clone may be a node of the original
+  (deep clone: nor one of its non-symbolic leaves)."""
+  mode = 'deep' if deep else 'shallow'
+  an = TM.nodes_of(a)
+  ids_nodes = {id(n): keys for n, keys in an}
+  ids_leaves = {}
+  for n, keys in an:
+    for k, v in TM.children(n):
+      if isinstance(v, M.Leaf):
+        ids_leaves[id(v)] = keys + [k]
+  done = set()
+  for n, keys in TM.nodes_of(b):
+    if isinstance(n, pg.Ref):
+      continue
+    for gname, get in HANDOUT_GETTERS:
+      try:
+        res = get(n)
+      except Exception:  # pylint: disable=broad-except
+        continue
+      objs = []
+      handed_out(res, objs)
+      ctx.counters['getter_identity_checks'] += 1
+      for o in objs:
+        if id(o) in ids_nodes and isinstance(o, pg.Symbolic):
+          key = ('getter-returns-original-node', f'{mode}/{gname}')
+          where = ids_nodes[id(o)]
+        elif deep and id(o) in ids_leaves and isinstance(o, M.Leaf):
+          key = ('getter-returns-original-leaf', f'{mode}/{gname}')
+          where = ids_leaves[id(o)]
+        else:
+          continue
+        if key in done:
+          continue
+        done.add(key)
+        ctx.violation(key[0], key[1],
+                      f'{label} via {via}: {gname} of the clone node at {keys} returns the '
+                      f'{type(o).__name__} stored at {where} of the ORIGINAL', witness)
+
+
+# ---------------------------------------------------------------------------
+# Public state outside the symbolic fields (DNA metadata / userdata, functor
+# argument sets).
+
+META_KEYS = ['m0', 'm1', 'm2']
+USER_KEYS = ['u0', 'u1', 'u2']
+
+
+class DnaModel:
+  """Which keys are cloneable on one copy (only used to stay away from calls
+  the documentation leaves open)."""
+
+  def __init__(self, meta_cl=(), user_cl=()):
+    self.meta_cl, self.user_cl = set(meta_cl), set(user_cl)
+
+  def clone(self):
+    return DnaModel(self.meta_cl, self.user_cl)
+
+
+def dna_op(rng, model):
+  which = rng.choice(['metadata', 'userdata'])
+  k = rng.choice(META_KEYS if which == 'metadata' else USER_KEYS)
+  cl_set = model.meta_cl if which == 'metadata' else model.user_cl
+  cloneable = True if k in cl_set else rng.random() < 0.5
+  if cloneable:
+    cl_set.add(k)
+  return {'op': f'DNA.set_{which}', 'k': k, 'v': rng.randint(0, 99), 'cloneable': cloneable}
+
+
+def run_dna_op(dna, step):
+  fn = dna.set_metadata if step['op'] == 'DNA.set_metadata' else dna.set_userdata
+  fn(step['k'], step['v'], cloneable=step['cloneable'])
+
+
+def show_state_step(step):
+  return step['op'] + '(' + ', '.join(f'{k}={v!r}' for k, v in step.items() if k != 'op') + ')'
+
+
+def functor_op(rng):
+  arg = rng.choice(['a', 'b'])
+  r = rng.random()
+  if r < 0.45:
+    return {'op': 'Functor.rebind', 'arg': arg, 'v': rng.randint(0, 9)}
+  if r < 0.8:
+    return {'op': 'Functor.__setattr__', 'arg': arg, 'v': rng.randint(0, 9)}
+  return {'op': 'Functor.__delattr__', 'arg': arg}
+
+
+def run_functor_op(f, step):
+  if step['op'] == 'Functor.rebind':
+    f.rebind({step['arg']: step['v']}, raise_on_no_change=False)
+  elif step['op'] == 'Functor.__setattr__':
+    setattr(f, step['arg'], step['v'])
+  else:
+    delattr(f, step['arg'])
+
+
+def state_obs(x, next_via=None):
+  """[(part, observation)] of the public state of a DNA / functor, in the order
+  in which a difference is attributed."""
+  out = [('json', js(x))]
+  if isinstance(x, pg.DNA):
+    out.append(('metadata', repr(sorted(x.metadata.items()))))
+    out.append(('userdata', repr(sorted(x.userdata.items()))))
+    if next_via is not None:
+      try:
+        c = next_via(x)
+        nxt = (js(c), repr(sorted(c.metadata.items())), repr(sorted(c.userdata.items())))
+      except Exception as e:  # pylint: disable=broad-except
+        nxt = ('raise', type(e).__name__)
+      out.append(('next-clone', nxt))
+  elif isinstance(x, pg.Functor):
+    sets = tuple(repr(sorted(getattr(x, name))) for name in (
+        'specified_args', 'non_default_args', 'default_args', 'bound_args', 'unbound_args'))
+    out.append(('arg-sets', sets + (x.is_fully_bound,)))
+    try:
+      res = ('ok', repr(x()))
+    except Exception as e:  # pylint: disable=broad-except
+      res = ('raise', type(e).__name__)
+    out.append(('call', res))
+  return out
+
+
+def first_diff(before, after):
+  for (part, x), (_, y) in zip(before, after):
+    if x != y:
+      return part, x, y
+  return None
+
+
+def dress_dna(rng, dna):
+  """Gives a DNA metadata and userdata (cloneable or not) through its API."""
+  model = DnaModel()
+  if rng.random() < 0.8:
+    for _ in range(rng.randint(1, 4)):
+      run_dna_op(dna, dna_op(rng, model))
+  return model
+
+
+def state_history(ctx, rng, a, clones, label, witness, model_a):
+  """History on one copy through the value's own API; the other copy is observed."""
+  c = ctx.counters
+  kname = kind(a)
+  mode, via, b = rng.choice(clones)
+  mutate_clone = rng.random() < 0.5
+  y, x = (b, a) if mutate_clone else (a, b)
+  next_name, next_via = rng.choice(DEEP_VIAS + SHALLOW_VIAS)
+  ctx.label = 'state-observation'
+  snap = state_obs(x, next_via)
+  ctx.label = None
+  model_y = model_a.clone() if model_a is not None else None
+  trace = []
+  for _ in range(rng.randint(3, 8)):
+    step = dna_op(rng, model_y) if kname == 'DNA' else functor_op(rng)
+    trace.append(show_state_step(step))
+    try:
+      (run_dna_op if kname == 'DNA' else run_functor_op)(y, step)
+    except Exception:  # pylint: disable=broad-except
+      c['state_ops_raised'] += 1
+    c['state_interference_checks'] += 1
+    ctx.label = 'state-observation'
+    now = state_obs(x, next_via)
+    ctx.label = None
+    d = first_diff(snap, now)
+    if d is not None:
+      part, was, is_ = d
+      ctx.violation('interference', f'{kname}/{part}',
+                    f'{label} cloned via {via} ({mode}); {trace[-1]} on the '
+                    f'{"clone" if mutate_clone else "original"} changed the {part} of the '
+                    f'{"original" if mutate_clone else "clone"}'
+                    f'{" (its next clone taken via " + next_name + ")" if part == "next-clone" else ""}'
+                    f':\n was {was!r:.300}\n now {is_!r:.300}',
+                    dict(witness, history=trace[-10:]))
+      snap = now
+  ctx.mark_nontrivial((kname, label[:80], via, mutate_clone, tuple(trace)))
+  return {'value': label[:300], 'clone': via, 'mutated': 'clone' if mutate_clone else 'original',
+          'history': trace[:8]}
+
+
 def run_case(ctx, i):
   rng = ctx.rng
   c = ctx.counters
   label, a = make_value(rng)
   witness = {'value': label[:600]}
+  ka = kind(a)
+  model_a = None
+  if ka == 'DNA':
+    ctx.label = 'DNA.set_metadata/set_userdata'
+    model_a = dress_dna(rng, a)
+    ctx.label = None
+    label += f'+metadata{sorted(a.metadata.items())!r}+userdata{sorted(a.userdata.items())!r}'
+    label += f'+cloneable{sorted(model_a.meta_cl | model_a.user_cl)!r}'
+    witness = {'value': label[:600]}
   snap_a = js(a)
+  primed = prime(ctx, rng, a)
+  if primed:
+    witness['source'] = primed + ' before cloning'
+  state_a = state_obs(a) if ka in ('DNA', 'Functor') else None
   clones = []
   for deep, vias in ((True, DEEP_VIAS), (False, SHALLOW_VIAS)):
     via, fn = rng.choice(vias)
@@ -237,6 +523,8 @@ def run_case(ctx, i):
       continue
     ctx.label = None
     c['clones_checked'] += 1
+    if primed:
+      c['primed_clones'] += 1
     mode = 'deep' if deep else 'shallow'
     if scopes:
       c['clones_inside_scopes'] += 1
@@ -244,12 +532,37 @@ def run_case(ctx, i):
       ctx.scope_tag = '@scope'
     else:
       ctx.scope_tag = ''
-    if not pg.eq(a, b) or pg.ne(a, b):
+    dropped_metadata = ka == 'DNA' and any(k not in model_a.meta_cl for k in a.metadata)
+    if dropped_metadata:
+      # Documented: metadata that was not set with cloneable=True is not carried.
+      equal = (pg.eq(a.value, b.value) and pg.eq(a.children, b.children)
+               and not pg.ne(a.children, b.children))
+    else:
+      equal = pg.eq(a, b) and not pg.ne(a, b)
+    if not equal:
       ctx.violation('not-equal', f'{mode}/{kind(a)}', f'{label} via {via}: clone differs: '
                     f'{js(b)[:300]} vs {snap_a[:300]}', witness)
-    if js(a) != snap_a:
+    if js(a) != snap_a or (state_a is not None and state_obs(a) != state_a):
       ctx.violation('original-changed', f'{mode}/{kind(a)}', f'{label} via {via}', witness)
+    if ka == 'DNA':
+      c['state_fidelity_checks'] += 1
+      for part, got, want in (
+          ('metadata', dict(b.metadata.items()),
+           {k: v for k, v in a.metadata.items() if k in model_a.meta_cl}),
+          ('userdata', dict(b.userdata.items()),
+           {k: v for k, v in a.userdata.items() if k in model_a.user_cl})):
+        if got != want:
+          ctx.violation('state-differs', f'DNA/{part}', f'{label} via {via} ({mode}): the '
+                        f'clone has {part} {got!r}, the cloneable {part} of the source is '
+                        f'{want!r}', witness)
+    elif ka == 'Functor':
+      c['state_fidelity_checks'] += 1
+      d = first_diff(state_a, state_obs(b))
+      if d is not None:
+        ctx.violation('state-differs', f'Functor/{d[0]}', f'{label} via {via} ({mode}): '
+                      f'source {d[1]!r:.200} clone {d[2]!r:.200}', witness)
     compare_nodes(ctx, a, b, deep, via, label, witness)
+    getter_identity(ctx, a, b, deep, via, label, witness)
     for clause, detail in TM.tree_ok([b]):
       ctx.violation('clone-tree-' + clause, f'{mode}/{kind(a)}', f'{label} via {via}: {detail}', witness)
     if deep:
@@ -257,16 +570,29 @@ def run_case(ctx, i):
         ctx.violation('clone-schema-' + clause, f'{mode}/{kind(a)}', f'{label} via {via}: {detail}', witness)
     clones.append((mode, via, b))
     ctx.seen('value_kinds', (kind(a), mode, via))
-  deep_clones = [x for x in clones if x[0] == 'deep']
-  if not deep_clones or kind(a) in ('DNA', 'DNASpec', 'Functor'):
+  if clones and ka in ('DNA', 'Functor'):
+    smp = state_history(ctx, rng, a, clones, label, witness, model_a)
+    if i < 2:
+      ctx.sample(smp)
+    return
+  if not clones or ka == 'DNASpec':
     if i < 2:
       ctx.sample({'value': label[:300], 'clones': [(m, v) for m, v, _ in clones]})
     return
-  # --- non-interference over a post-clone history (deep clone) ---------------
-  mode, via, b = deep_clones[0]
+  # --- non-interference over a post-clone history (deep or shallow clone) -----
+  mode, via, b = rng.choice(clones)
   mutate_clone = rng.random() < 0.5
   y, x = (b, a) if mutate_clone else (a, b)
-  snap_x = js(x)
+  who = 'original' if mutate_clone else 'clone'
+
+  def observe():
+    ctx.label = 'observe-untouched-side'
+    try:
+      return js(x), safe_format(x), facts_of(x)
+    finally:
+      ctx.label = None
+
+  snap_x, fmt_x, facts_x = observe()
   forest = [y]
   trace, changed = [], 0
   scope_p = {'notify_off': 0.08, 'writable': 0.5, 'unsealed': 1.0}
@@ -286,16 +612,40 @@ def run_case(ctx, i):
     c['interference_checks'] += 1
     if js(forest[0]) != before:
       changed += 1
-    now = js(x)
-    if now != snap_x:
+    now, fmt_now, facts_now = observe()
+    head = (f'{label} cloned via {via} ({mode}{", source " + primed if primed else ""}); '
+            f'mutating the {"clone" if mutate_clone else "original"} with {trace[-1]} changed ')
+    if now != snap_x or fmt_now != fmt_x:
+      was, is_ = (snap_x, now) if now != snap_x else (fmt_x, fmt_now)
       ctx.violation('interference', step['op'],
-                    f'{label} cloned via {via}; mutating the '
-                    f'{"clone" if mutate_clone else "original"} with {trace[-1]} changed the '
-                    f'{"original" if mutate_clone else "clone"}:\n was {snap_x[:300]}\n now {now[:300]}',
+                    f'{head}the {who}:\n was {was[:300]}\n now {is_[:300]}',
                     dict(witness, history=trace[-10:]))
-      snap_x = now
+      snap_x, fmt_x = now, fmt_now
+    c['derived_interference_checks'] += 1
+    if facts_now != facts_x:
+      if (now, fmt_now) == (snap_x, fmt_x):
+        names = sorted({k[1] for k in set(facts_now) | set(facts_x)
+                        if facts_now.get(k) != facts_x.get(k)})
+        k0 = sorted((k for k in set(facts_now) | set(facts_x)
+                     if k[1] == names[0] and facts_now.get(k) != facts_x.get(k)), key=repr)[0]
+        ctx.violation('interference-derived', names[0],
+                      f'{head}what {names[0]} of the {who} node at {list(k0[0])} reports '
+                      f'(content of the {who} unchanged):\n was {facts_x.get(k0)!r:.300}\n now '
+                      f'{facts_now.get(k0)!r:.300}', dict(witness, history=trace[-10:]))
+      facts_x = facts_now
     if H.total_size(forest) > 250:
       break
+  # the getters of the untouched side against a fresh computation on a copy of it
+  if ka in ('List', 'Dict', 'Object'):
+    ctx.label = 'derived-fresh-check'
+    stale = DV.check([x], c)
+    ctx.label = None
+    for _, keys, tname, fact, live, fresh in stale[:1]:
+      ctx.violation('stale-derived', f'{who}/{fact}',
+                    f'{label} cloned via {via} ({mode}{", source " + primed if primed else ""}); '
+                    f'after the history on the other copy {fact} of the {who} node at {keys} '
+                    f'({tname}) reports {live!r:.200}, a fresh copy of it {fresh!r:.200}',
+                    dict(witness, history=trace[-10:]))
   if len(TM.nodes_of(a)) >= 3 and changed >= 3:
     ctx.mark_nontrivial((TM.shape([a]), label.split('+', 1)[-1] if '+' in label else '',
                          via, tuple(t.split('(')[0].split('.', 1)[-1] for t in trace)))
